@@ -16,6 +16,9 @@ import Protobom.Proofs.Cdx
 import Protobom.Proofs.Nest
 import Protobom.Proofs.NestRT
 import Protobom.Proofs.ForestNodup
+import Protobom.Proofs.CdxAttrs
+import Protobom.Proofs.NestNodes
+import Protobom.Proofs.CdxSecond
 
 namespace Protobom.C02
 open Protobom Protobom.Cdx Gen
@@ -176,5 +179,372 @@ theorem roundtrip_forest_closed (v : Nat) (d : Document) (md : Metadata) (nl : N
     ((dictOf nl.nodes).length + 2) hht placed hpl
   obtain ⟨d', nl', h1, h2, h3, h4, h5⟩ := h hnd
   exact ⟨placed, d', nl', hpl, h1, h2, h4, h3 ▸ hnd, h3, h5⟩
+
+end Protobom.C02
+
+namespace Protobom.C02
+open Protobom Protobom.Cdx
+
+/-! ### non-vacuity of the forest hypotheses: root r contains a, a contains b -/
+
+def exNode (id : String) : Node := { id := id, typ := 0, attrs := Gen.Schema.nodeAttrs.map (fun fk => fk.2.zero) }
+def exNL3 : NodeList :=
+  { nodes := [exNode "b", exNode "r", exNode "a"],
+    edges := [{ ty := 5, src := "a", tos := ["b"] }, { ty := 5, src := "r", tos := ["a"] }], roots := ["r"] }
+def exP1 : Pass1 := { children := [("a", ["b"]), ("r", ["a"])], deps := [] }
+def exHt (x : String) : Nat := if x = "r" then 2 else if x = "a" then 1 else 0
+
+theorem ex_pass1 : pass1 (fun id => (dictOf exNL3.nodes).any (·.1 = id)) exNL3.edges = .ok exP1 := by rfl
+
+theorem ex_children (x : String) : childrenOf exP1 x = if x = "a" then ["b"] else if x = "r" then ["a"] else [] := by
+  simp only [childrenOf, exP1, List.lookup_cons, List.lookup_nil]
+  by_cases ha : x = "a"
+  · simp [ha]
+  · by_cases hr : x = "r"
+    · simp [hr]
+    · have e1 : (x == "a") = false := by simpa using ha
+      have e2 : (x == "r") = false := by simpa using hr
+      simp [ha, hr, e1, e2]
+
+theorem ex_forest : Forest (childrenOf exP1) exHt (fun x => ((dictOf exNL3.nodes).lookup x).isSome = true) ["r"] := by
+  refine ⟨?_, ?_, ?_, ?_, ?_⟩
+  · intro id t ht'
+    rw [ex_children] at ht'
+    by_cases ha : id = "a"
+    · simp only [ha, if_true, List.mem_singleton] at ht'; subst ht'; subst ha; decide
+    · by_cases hr : id = "r"
+      · subst hr
+        have hne : ("r" : String) ≠ "a" := by decide
+        simp only [hne, if_false, if_true, List.mem_singleton] at ht'; subst ht'; decide
+      · simp [ha, hr] at ht'
+  · intro a b t h1 h2
+    rw [ex_children] at h1 h2
+    by_cases ha : a = "a" <;> by_cases hb : b = "a" <;> by_cases ha' : a = "r" <;> by_cases hb' : b = "r" <;>
+      simp_all
+  · intro a
+    rw [ex_children]
+    by_cases ha : a = "a"
+    · simp [ha]
+    · by_cases hr : a = "r" <;> simp [ha, hr]
+  · intro id t _ ht'
+    rw [ex_children] at ht'
+    by_cases ha : id = "a"
+    · simp only [ha, if_true, List.mem_singleton] at ht'; subst ht'; decide
+    · by_cases hr : id = "r"
+      · subst hr
+        have hne : ("r" : String) ≠ "a" := by decide
+        simp only [hne, if_false, if_true, List.mem_singleton] at ht'; subst ht'; decide
+      · simp [ha, hr] at ht'
+  · intro id t ht'
+    rw [ex_children] at ht'
+    by_cases ha : id = "a"
+    · simp only [ha, if_true, List.mem_singleton] at ht'; subst ht'; decide
+    · by_cases hr : id = "r"
+      · subst hr
+        have hne : ("r" : String) ≠ "a" := by decide
+        simp only [hne, if_false, if_true, List.mem_singleton] at ht'; subst ht'; decide
+      · simp [ha, hr] at ht'
+
+end Protobom.C02
+
+namespace Protobom.C02
+open Protobom Protobom.Cdx
+
+def exMd : Metadata := { id := "urn:uuid:1", version := "1" }
+def exDoc : Document := { metadata := some exMd, nodeList := some exNL3 }
+
+/-- the premises of `roundtrip_forest_closed` are met by a three-level document whose edges are
+    stored bottom-up, and its conclusion follows for it -/
+example : ∃ (d' : Document) (nl' : NodeList),
+    rtCDX 5 exDoc = .ok d' ∧ d'.nodeList = some nl' ∧ nl'.roots = ["r"] ∧ nl'.ids.Nodup ∧
+    nl'.HasEdge "a" 5 "b" := by
+  have hlen : (dictOf exNL3.nodes).length = 3 := by rfl
+  obtain ⟨placed, d', nl', hpl, h1, h2, h3, h4, _, h6⟩ :=
+    roundtrip_forest_closed 5 exDoc exMd exNL3 "r" (exNode "r") [] exP1 exHt rfl rfl rfl (by rfl) rfl (by rfl)
+      ex_pass1 ex_forest
+      (by
+        intro x
+        rw [hlen]
+        unfold exHt
+        by_cases h : x = "r"
+        · simp [h]
+        · by_cases h' : x = "a" <;> simp [h, h'])
+      (by
+        intro x hx
+        have := (dictOf_known exNL3.nodes x).mp hx
+        simp only [exNL3, exNode, List.map_cons, List.map_nil, List.mem_cons, List.not_mem_nil, or_false] at this
+        rcases this with rfl | rfl | rfl <;> decide)
+  refine ⟨d', nl', h1, h2, h3, h4, ?_⟩
+  rw [h6]
+  refine ⟨rfl, Or.inr ⟨?_, ?_⟩⟩
+  · -- "a" is a top-level node: it is not nested (its only container is the root)
+    refine ⟨"a", ?_, ?_⟩
+    · rw [List.mem_map]
+      refine ⟨("a", nodeToComponent (exNode "a")), ?_, rfl⟩
+      rw [List.mem_filter]
+      refine ⟨List.mem_of_getElem? (i := 2) (by rfl), ?_⟩
+      simp only [decide_eq_true_eq]
+      intro hmem
+      rcases (hpl "a").mp hmem with h | ⟨p, hp, _, hc⟩
+      · exact absurd h (by decide)
+      · rw [ex_children] at hc
+        by_cases ha : p = "a"
+        · subst ha; simp at hc
+        · by_cases hr : p = "r"
+          · exact hp hr
+          · simp [ha, hr] at hc
+    · simp [pre, exHt]
+  · rw [ex_children]; simp
+
+end Protobom.C02
+
+namespace Protobom.C02
+open Protobom Protobom.Cdx Gen
+
+/-! ### per-node attributes across the codec (`rtNode v n`: node `n` written as a component,
+    converted for CycloneDX 1.`v`, read back) -/
+
+/-- name, description, copyright: verbatim at every version; the version string verbatim from
+    1.4 on, and at 1.3 whenever it is not empty (cyclonedx-go fills `0.0.0` in there) -/
+theorem node_scalars_preserved (v : Nat) (n : Node) :
+    (rtNode v n).attr "Name" = some (.str (Spdx.Node.str n "Name")) ∧
+    (rtNode v n).attr "Description" = some (.str (Spdx.Node.str n "Description")) ∧
+    (rtNode v n).attr "Copyright" = some (.str (Spdx.Node.str n "Copyright")) ∧
+    (rtNode v n).attr "Version" =
+      some (.str (if v < 4 ∧ Spdx.Node.str n "Version" = "" then "0.0.0" else Spdx.Node.str n "Version")) := by
+  refine ⟨?_, ?_, ?_, ?_⟩ <;>
+    (rw [rtNode_attr v n _ .str (by simp [Schema.nodeAttrs])]; simp [compAttr, nodeToComponent, convComp])
+
+theorem node_id_preserved (v : Nat) (n : Node) (h : n.id ≠ "") : (rtNode v n).id = n.id := rtNode_id v n h
+
+/-- file kind: a FILE node comes back as a FILE node with the FILE purpose, at every version -/
+theorem file_kind_preserved (v : Nat) (n : Node) (h : n.typ = 1) :
+    (rtNode v n).typ = 1 ∧ (rtNode v n).attr "PrimaryPurpose" = some (.enums [12]) := by
+  have h1 : supportsType v "file" = true := by simp [supportsType]
+  have h2 : purposeIn "file" = 12 := by decide
+  constructor
+  · simp [rtNode, nodeToComponent, convComp, componentToNode, h, h1, h2]
+  · rw [rtNode_attr v n _ .enums (by simp [Schema.nodeAttrs])]
+    simp [compAttr, nodeToComponent, convComp, h, h1, h2]
+
+/-- native component type at 1.5: a package node whose first purpose is one of the eleven native
+    ones keeps exactly that purpose and stays a package -/
+theorem component_type_preserved_15 (n : Node) (p : Int) (rest : List Int) (h : n.typ ≠ 1)
+    (hp : p ∈ nativePurposes15) (hn : Spdx.Node.enums n "PrimaryPurpose" = p :: rest) :
+    (rtNode 5 n).typ = 0 ∧ (rtNode 5 n).attr "PrimaryPurpose" = some (.enums [p]) := by
+  have h1 := purposes_roundtrip_15 p hp
+  cases ho : purposeOut p with
+  | none => rw [ho] at h1; simp at h1
+  | some t =>
+    rw [ho] at h1
+    simp only [Option.map_some, Option.some.injEq] at h1
+    have hne : p ≠ 12 := by
+      intro e; rw [e] at hp; revert hp; decide
+    constructor
+    · simp [rtNode, nodeToComponent, convComp, componentToNode, h, hn, ho, h1, hne]
+    · rw [rtNode_attr 5 n _ .enums (by simp [Schema.nodeAttrs])]
+      simp [compAttr, nodeToComponent, convComp, h, hn, ho, h1]
+
+/-- the same at 1.4, for the seven types that version has -/
+theorem component_type_preserved_14 (n : Node) (p : Int) (rest : List Int) (h : n.typ ≠ 1)
+    (hp : p ∈ nativePurposes14) (hn : Spdx.Node.enums n "PrimaryPurpose" = p :: rest) :
+    (rtNode 4 n).typ = 0 ∧ (rtNode 4 n).attr "PrimaryPurpose" = some (.enums [p]) := by
+  have h1 := purposes_roundtrip_14 p hp
+  cases ho : purposeOut p with
+  | none => rw [ho] at h1; simp at h1
+  | some t =>
+    rw [ho] at h1
+    simp only [Option.map_some, Option.some.injEq] at h1
+    have hne : p ≠ 12 := by
+      intro e; rw [e] at hp; revert hp; decide
+    constructor
+    · simp [rtNode, nodeToComponent, convComp, componentToNode, h, hn, ho, h1, hne]
+    · rw [rtNode_attr 4 n _ .enums (by simp [Schema.nodeAttrs])]
+      simp [compAttr, nodeToComponent, convComp, h, hn, ho, h1]
+
+/-- hashes: a hash map over the twelve CycloneDX algorithms comes back with exactly its entries
+    (in key order), whatever its size -/
+theorem node_hashes_preserved (v : Nat) (n : Node) (hk : ∀ kv ∈ n.hashes, kv.1 ∈ cdxHashes)
+    (hnd : (n.hashes.map (·.1)).Nodup) :
+    (rtNode v n).attr "Hashes" = some (.imap (sortedByKey n.hashes)) ∧ (sortedByKey n.hashes).Perm n.hashes := by
+  constructor
+  · rw [rtNode_attr v n _ .imap (by simp [Schema.nodeAttrs])]
+    simp only [compAttr, nodeToComponent, convComp]
+    simp [compHashes_hashesOut n.hashes hk hnd]
+  · exact sortedByKey_perm_self n.hashes hnd
+
+/-- software identifiers: the purl comes back under key 1; a CPE 2.3 string under key 3 and any
+    other CPE string under key 2 (CycloneDX has one `cpe` member: 2.3 wins when both are present) -/
+theorem node_identifiers_preserved (v : Nat) (n : Node) :
+    (rtNode v n).attr "Identifiers" = some (.imap (compIds ((n.identifiers.lookup 1).getD "")
+      ((n.identifiers.lookup 3).getD ((n.identifiers.lookup 2).getD "")))) := by
+  rw [rtNode_attr v n _ .imap (by simp [Schema.nodeAttrs])]
+  simp only [compAttr, nodeToComponent, convComp]
+  cases n.identifiers.lookup 3 <;> simp
+
+theorem identifiers_read_back (purl cpe : String) :
+    (compIds purl cpe).lookup 1 = (if purl = "" then none else some purl) ∧
+    (compIds purl cpe).lookup 3 = (if cpe ≠ "" ∧ Str.hasPrefix cpe "cpe:2.3" = true then some cpe else none) ∧
+    (compIds purl cpe).lookup 2 = (if cpe ≠ "" ∧ Str.hasPrefix cpe "cpe:2.3" = false then some cpe else none) := by
+  simp only [compIds]
+  refine ⟨?_, ?_, ?_⟩
+  · by_cases h1 : cpe = "" <;> by_cases h2 : purl = "" <;> by_cases h3 : Str.hasPrefix cpe "cpe:2.3" = true <;>
+      simp [h1, h2, h3, List.lookup]
+  · by_cases h1 : cpe = "" <;> by_cases h2 : purl = "" <;> by_cases h3 : Str.hasPrefix cpe "cpe:2.3" = true <;>
+      simp [h1, h2, h3, List.lookup]
+  · by_cases h1 : cpe = "" <;> by_cases h2 : purl = "" <;> by_cases h3 : Str.hasPrefix cpe "cpe:2.3" = true <;>
+      simp [h1, h2, h3, List.lookup]
+
+/-- licence list: the first non-empty entry comes back, alone (CycloneDX carries the list, the
+    reader stops at the first usable entry: known finding KF-C02-licence-truncation); so lists of
+    at most one licence are preserved exactly -/
+theorem node_licenses_first (v : Nat) (n : Node) :
+    (rtNode v n).attr "Licenses" = some (.strs (match (Spdx.Node.strs n "Licenses").find? (· ≠ "") with
+      | some l => [l] | none => [])) := by
+  rw [rtNode_attr v n _ .strs (by simp [Schema.nodeAttrs])]
+  simp only [compAttr, nodeToComponent, convComp]
+  simp only [if_false, if_true, String.reduceEq]
+  congr 2
+  cases hl : Spdx.Node.strs n "Licenses" with
+  | nil => simp [licenseList]
+  | cons l ls =>
+    simp only [licenseList]
+    generalize (l :: ls) = L
+    induction L with
+    | nil => simp
+    | cons a as ih =>
+      simp only [List.map_cons, List.find?_cons]
+      by_cases ha : a = ""
+      · simp [ha, licenseID]
+        simpa [licenseID] using ih
+      · simp [ha, licenseID]
+
+theorem node_single_license_preserved (v : Nat) (n : Node) (l : String) (hl : l ≠ "")
+    (h : Spdx.Node.strs n "Licenses" = [l]) : (rtNode v n).attr "Licenses" = some (.strs [l]) := by
+  rw [node_licenses_first, h]; simp [hl]
+
+/-- external references: one per reference, in order, with URL and comment verbatim, the type
+    through the two tables and the version conversion, the hashes through the hash tables -/
+theorem node_references (v : Nat) (n : Node) :
+    (rtNode v n).attr "ExternalReferences" = some (.refs ((Spdx.Node.refs n "ExternalReferences").map (fun r =>
+      ({ url := r.url, comment := r.comment, typ := refTypeIn (convRef v { typ := refTypeOut r.typ }).typ,
+         hashes := (hashesOut r.hashes).foldl (fun m h => Spdx.mapStore m (hashIn h.algo) h.value) [] } : ExtRef)))) := by
+  rw [rtNode_attr v n _ .refs (by simp [Schema.nodeAttrs])]
+  simp only [compAttr, nodeToComponent, convComp]
+  simp [compRefs, convRef, List.map_map, Function.comp_def]
+
+/-- a reference of a type every version has, with hashes over the CycloneDX algorithms, comes
+    back with the same type, URL, comment and hash entries -/
+theorem reference_preserved (v : Nat) (r : ExtRef) (ht : r.typ ∈ refTypesAll)
+    (hk : ∀ kv ∈ r.hashes, kv.1 ∈ cdxHashes) (hnd : (r.hashes.map (·.1)).Nodup) :
+    ({ url := r.url, comment := r.comment, typ := refTypeIn (convRef v { typ := refTypeOut r.typ }).typ,
+       hashes := (hashesOut r.hashes).foldl (fun m h => Spdx.mapStore m (hashIn h.algo) h.value) [] } : ExtRef) =
+    { r with authority := "", hashes := sortedByKey r.hashes } := by
+  rw [reftypes_roundtrip_all v r.typ ht, refHashes_hashesOut r.hashes hk hnd]
+
+/-! ### the node set and the nodes of the round trip -/
+
+/-- **the same node set**: on containment forests the round trip returns exactly the identifiers
+    of the document, each once -/
+theorem roundtrip_same_node_set (v : Nat) (d : Document) (md : Metadata) (nl : NodeList) (root : String) (rootNode : Node)
+    (lcs : List Lifecycle) (p1 : Pass1) (ht : String → Nat)
+    (hmd : d.metadata = some md) (hnl : d.nodeList = some nl) (hroots : nl.roots = [root])
+    (hroot : nl.getNodeByID root = some rootNode) (hrid : rootNode.id = root)
+    (hlc : serCDX.mapLifecycles md.docTypes = .ok lcs)
+    (hp1 : pass1 (fun id => (dictOf nl.nodes).any (·.1 = id)) nl.edges = .ok p1)
+    (F : Forest (childrenOf p1) ht (fun x => ((dictOf nl.nodes).lookup x).isSome = true) [root])
+    (hht : ∀ x, ht x < (dictOf nl.nodes).length + 2)
+    (hids : ∀ x, ((dictOf nl.nodes).lookup x).isSome = true → x ≠ "" ∧ isAutoRef x = false) :
+    ∃ (d' : Document) (nl' : NodeList), rtCDX v d = .ok d' ∧ d'.nodeList = some nl' ∧ nl'.ids.Nodup ∧
+      ∀ x, x ∈ nl'.ids ↔ x ∈ nl.ids := by
+  obtain ⟨placed, d', nl', hpl, h1, h2, _, h4, h5, _⟩ :=
+    roundtrip_forest_closed v d md nl root rootNode lcs p1 ht hmd hnl hroots hroot hrid hlc hp1 F hht hids
+  refine ⟨d', nl', h1, h2, h4, ?_⟩
+  intro x
+  have hDroot : ((dictOf nl.nodes).lookup root).isSome = true :=
+    (dictOf_known nl.nodes root).mpr (List.mem_map.mpr ⟨rootNode, by
+      unfold NodeList.getNodeByID at hroot
+      exact List.mem_of_find?_eq_some hroot, hrid⟩)
+  rw [h5, forest_preorder_covers (childrenOf p1) ht root (dictOf nl.nodes) hDroot F _ hht placed hpl x]
+  exact dictOf_known nl.nodes x
+
+/-- **every node that comes back is the image of the node with its identifier**: with unique
+    identifiers, each node of the result is either the root component read back (the root node,
+    named after the document when it has no name of its own) or `rtNode v n` for the node `n` of
+    the document with the same identifier — so the per-attribute theorems above apply to it,
+    wherever it is nested and in whatever order the edges were stored -/
+theorem roundtrip_nodes (v : Nat) (d : Document) (md : Metadata) (nl : NodeList) (root : String) (rootNode : Node)
+    (lcs : List Lifecycle) (p1 : Pass1) (ht : String → Nat)
+    (hmd : d.metadata = some md) (hnl : d.nodeList = some nl) (hroots : nl.roots = [root])
+    (hroot : nl.getNodeByID root = some rootNode) (hrid : rootNode.id = root)
+    (hlc : serCDX.mapLifecycles md.docTypes = .ok lcs)
+    (hp1 : pass1 (fun id => (dictOf nl.nodes).any (·.1 = id)) nl.edges = .ok p1)
+    (F : Forest (childrenOf p1) ht (fun x => ((dictOf nl.nodes).lookup x).isSome = true) [root])
+    (hht : ∀ x, ht x < (dictOf nl.nodes).length + 2)
+    (hids : ∀ x, ((dictOf nl.nodes).lookup x).isSome = true → x ≠ "" ∧ isAutoRef x = false)
+    (hnd : nl.ids.Nodup) :
+    ∃ (d' : Document) (nl' : NodeList), rtCDX v d = .ok d' ∧ d'.nodeList = some nl' ∧
+      ∀ n' ∈ nl'.nodes,
+        n' = componentToNode (convComp v (if md.name ≠ "" ∧ (nodeToComponent rootNode).name = ""
+          then (nodeToComponent rootNode).withName md.name else nodeToComponent rootNode)) 0 ∨
+        ∃ n ∈ nl.nodes, n' = rtNode v n ∧ n'.id = n.id := by
+  obtain ⟨placed, hpl, h⟩ :=
+    rtCDX_forest_nodes v d md nl root rootNode lcs p1 ht hmd hnl hroots hroot hrid hlc hp1 F hht hids
+  have hnodup := forest_preorder_nodup (childrenOf p1) ht root (dictOf nl.nodes) (dictOf_keys_nodup nl.nodes) F
+    ((dictOf nl.nodes).length + 2) hht placed hpl
+  obtain ⟨d', nl', h1, h2, h3⟩ := h hnodup
+  refine ⟨d', nl', h1, h2, ?_⟩
+  intro n' hn'
+  rw [h3] at hn'
+  rcases List.mem_cons.mp hn' with e | e
+  · exact Or.inl e
+  · right
+    obtain ⟨x, hx, rfl⟩ := List.mem_map.mp e
+    -- x is a known identifier
+    have hDx : ((dictOf nl.nodes).lookup x).isSome = true := by
+      have hDroot : ((dictOf nl.nodes).lookup root).isSome = true :=
+        (dictOf_known nl.nodes root).mpr (List.mem_map.mpr ⟨rootNode, by
+          unfold NodeList.getNodeByID at hroot
+          exact List.mem_of_find?_eq_some hroot, hrid⟩)
+      exact (forest_preorder_covers (childrenOf p1) ht root (dictOf nl.nodes) hDroot F _ hht placed hpl x).mp
+        (List.mem_cons_of_mem _ hx)
+    obtain ⟨n, hn, hnx⟩ := List.mem_map.mp ((dictOf_known nl.nodes x).mp hDx)
+    refine ⟨n, hn, ?_, ?_⟩
+    · show _ = componentToNode (convComp v (nodeToComponent n)) 0
+      rw [← comp0_of_mem nl.nodes hnd n hn, hnx]
+    · have : componentToNode (convComp v (comp0 (dictOf nl.nodes) x)) 0 = rtNode v n := by
+        show _ = componentToNode (convComp v (nodeToComponent n)) 0
+        rw [← comp0_of_mem nl.nodes hnd n hn, hnx]
+      rw [this, rtNode_id v n (by rw [hnx]; exact (hids x hDx).1)]
+
+end Protobom.C02
+
+namespace Protobom.C02
+open Protobom Protobom.Cdx Gen
+
+/-! ### a second pass changes nothing further -/
+
+/-- for a node of the round-trip class (non-empty identifier, at most one licence, hashes over the
+    CycloneDX algorithms, references of types every version has) the node that comes back from
+    CycloneDX 1.4 or 1.5 is a fixpoint of the round trip: every attribute, kind and identifier
+    included, is the same after a second write-then-read -/
+theorem second_pass_changes_nothing (v : Nat) (hv : v = 4 ∨ v = 5) (n : Node) (c : CdxNode n) :
+    rtNode v (rtNode v n) = rtNode v n := second_pass_node v hv n c
+
+/-- and what comes back is again in the class, so the same holds for every further pass -/
+theorem class_closed_under_pass (v : Nat) (n : Node) (c : CdxNode n) : CdxNode (rtNode v n) := rtNode_class v n c
+
+/-- without the licence bound the fixpoint fails, in the model as in the code (the known finding):
+    two licences come back as one, and the concluded-licence text changes on the second pass -/
+example :
+    let n : Node := { id := "a", typ := 0, attrs := Schema.nodeAttrs.map (fun fk =>
+      if fk.1 = "Licenses" then .strs ["MIT", "ISC"] else fk.2.zero) }
+    Spdx.Node.str (rtNode 5 (rtNode 5 n)) "LicenseConcluded" ≠ Spdx.Node.str (rtNode 5 n) "LicenseConcluded" := by decide
+
+/-- non-vacuity: a node with a name, a hash, a purl and one licence is in the class -/
+example : CdxNode { id := "a", typ := 0, attrs := Schema.nodeAttrs.map (fun fk =>
+      if fk.1 = "Licenses" then .strs ["MIT"] else if fk.1 = "Hashes" then .imap [(3, "aa")]
+      else if fk.1 = "Name" then .str "x" else fk.2.zero) } := by
+  refine ⟨by decide, by decide, by decide, by decide, by decide⟩
 
 end Protobom.C02
